@@ -94,7 +94,7 @@ func checkTermination(r *Run, w *cliWorld, faultFired string, faultStatus int, c
 			r.Fail("error-identity", "status", "request failed with status %d but Wait yielded %s", faultStatus, describeErr(w.waitErr))
 		}
 	case "transport":
-		if faultFirst && !closedBefore(w) && !errors.Is(w.waitErr, errSimTransport) && !strings.Contains(w.waitErr.Error(), errSimTransport.Error()) {
+		if faultFirst && !closedBefore(w) && !errors.Is(w.waitErr, errSimTransport) && !strings.Contains(w.waitErr.Error(), "simulated transport error") {
 			r.Fail("error-identity", "transport", "the transport failed but Wait yielded %s", describeErr(w.waitErr))
 		}
 	case "truncate":
@@ -140,6 +140,8 @@ func scC12Fault(r *Run) {
 	pos := r.SweepPos % 40
 	kind := []string{"status", "transport", "stall", "ontracks", "blackhole", "truncate"}[(r.SweepPos/40)%6]
 	status := Pick(T, 404, 500, 503, 403)
+	status206 := T.Chance(1, 5)
+	ctxErr := T.Chance(1, 3)
 	if kind == "ontracks" && pos > 0 {
 		return // the OnTracks fault has one position only
 	}
@@ -149,6 +151,12 @@ func scC12Fault(r *Run) {
 		f := &netFate{latency: time.Duration(T.Range(0, lat)) * time.Millisecond, back: time.Duration(T.Range(0, lat)) * time.Millisecond}
 		if nr.id == pos && kind != "ontracks" {
 			f.fault, f.status = kind, status
+			f.ctxError = ctxErr
+			// 206 is what a ranged request may be answered with; for a playlist it is a failure like any other status
+			if kind == "status" && status206 && strings.Contains(nr.url, ".m3u8") {
+				f.status = 206
+				status = 206
+			}
 			fired = kind
 			firedAt = r.Now()
 			r.FaultConf(kind)
